@@ -1,4 +1,226 @@
-(* C09, data-file level lemmas (filled in below) *)
-From Coq Require Import QArith.
-From TT Require Import Base.Prelude Model.TimeCode Model.Iso6937 Model.StlTf Model.StlDatafile Model.StlTriggers Spec.Ebu3264Spec.
+(* C09, data-file level: the text of a block (strip vs. cut at the first unused-space byte), rows and region
+   geometry (VP/JC -> region inside the safe area, over Q), and the comparison of subtitle numbers (identity vs.
+   value).  Each statement that is false of the faithful model has its refutation next to the partial lemma. *)
+From Coq Require Import QArith Lia.
+From TT Require Import Base.Prelude Gen.StlTables Model.TimeCode Model.Iso6937 Model.StlTf Model.StlDatafile Model.StlTriggers Spec.Ebu3264Spec.
 Open Scope Z_scope.
+
+(* ---- bytes.strip(b'\x8f') against "up to the first unused-space byte" ------------------------------------ *)
+Definition clean (t : list Z) : bool := forallb (fun b => negb (b =? 143)) t.
+
+Lemma after_filler_true r : after_filler r true = false -> r = repeat 143 (length r).
+Proof.
+  induction r as [|b r IH]; [reflexivity|]. cbn [after_filler]. destruct (b =? 143) eqn:E.
+  - intros H. apply Z.eqb_eq in E; subst b. cbn [length repeat]. f_equal. apply IH, H.
+  - cbn [orb]. discriminate.
+Qed.
+
+Lemma well_shaped tf : trigger_strip tf = false -> exists t k, tf = t ++ repeat 143 k /\ clean t = true.
+Proof.
+  unfold trigger_strip. induction tf as [|b r IH]; intros H.
+  - exists [], O. split; reflexivity.
+  - cbn [after_filler] in H. destruct (b =? 143) eqn:E.
+    + apply Z.eqb_eq in E; subst b. apply after_filler_true in H. exists [], (S (length r)). split; [|reflexivity].
+      cbn [app repeat]. f_equal. exact H.
+    + cbn [orb] in H. destruct (IH H) as (t & k & Hr & Hc). exists (b :: t), k. split.
+      * cbn [app]. f_equal. exact Hr.
+      * cbn [clean forallb]. rewrite E. exact Hc.
+Qed.
+
+Lemma text_of_repeat k : text_of_field (repeat 143 k) = [].
+Proof. destruct k; reflexivity. Qed.
+Lemma text_of_clean t k : clean t = true -> text_of_field (t ++ repeat 143 k) = t.
+Proof.
+  induction t as [|b t IH]; intros H; [apply text_of_repeat|].
+  cbn [clean forallb] in H. apply andb_true_iff in H as [Hb Ht]. cbn [app text_of_field]. change filler with 143.
+  destruct (b =? 143); [discriminate|]. f_equal. apply IH, Ht.
+Qed.
+
+Lemma lstrip_repeat k l : lstrip_8f (repeat 143 k ++ l) = lstrip_8f l.
+Proof. induction k as [|k IH]; [reflexivity|]. cbn [repeat app lstrip_8f]. rewrite Z.eqb_refl. exact IH. Qed.
+Lemma lstrip_clean l : clean l = true -> lstrip_8f l = l.
+Proof.
+  destruct l as [|b l]; [reflexivity|]. cbn [clean forallb lstrip_8f]. intros H. apply andb_true_iff in H as [Hb _].
+  destruct (b =? 143); [discriminate | reflexivity].
+Qed.
+Lemma clean_rev t : clean t = true -> clean (rev t) = true.
+Proof.
+  unfold clean. rewrite !forallb_forall. intros H x Hx. apply H, in_rev, Hx.
+Qed.
+Lemma rev_repeat_143 k : rev (repeat 143 k) = repeat 143 k.
+Proof.
+  induction k as [|k IH]; [reflexivity|]. cbn [repeat rev]. rewrite IH. symmetry. apply repeat_cons.
+Qed.
+
+Lemma strip_clean t k : clean t = true -> strip_8f (t ++ repeat 143 k) = t.
+Proof.
+  intros H. unfold strip_8f.
+  destruct t as [|b t].
+  - cbn [app]. rewrite <- (app_nil_r (repeat 143 k)), lstrip_repeat. reflexivity.
+  - assert (Hl : lstrip_8f ((b :: t) ++ repeat 143 k) = (b :: t) ++ repeat 143 k).
+    { cbn [app lstrip_8f]. cbn [clean forallb] in H. apply andb_true_iff in H as [Hb _]. destruct (b =? 143); [discriminate | reflexivity]. }
+    rewrite Hl, rev_app_distr, rev_repeat_143, lstrip_repeat, (lstrip_clean _ (clean_rev _ H)). apply rev_involutive.
+Qed.
+
+(* the text of a block: the implementation's strip is the standard's cut, unless something follows an unused-space byte *)
+Lemma strip_is_cut tf : trigger_strip tf = false -> strip_8f tf = text_of_field tf.
+Proof.
+  intros H. destruct (well_shaped tf H) as (t & k & -> & Hc). rewrite strip_clean, text_of_clean by exact Hc. reflexivity.
+Qed.
+Lemma strip_is_cut_refuted : exists tf, strip_8f tf <> text_of_field tf.
+Proof. exists [143; 65; 66]. vm_compute. discriminate. Qed.
+Lemma strip_clean_result tf : trigger_strip tf = false -> clean (strip_8f tf) = true.
+Proof. intros H. destruct (well_shaped tf H) as (t & k & -> & Hc). rewrite strip_clean by exact Hc. exact Hc. Qed.
+
+(* ---- rows --------------------------------------------------------------------------------------------------- *)
+Lemma line_count_breaks dh : forall bs count was, line_count_go dh bs count was = count + count_breaks dh bs was + 1.
+Proof.
+  induction bs as [|c r IH]; intros count was; cbn [line_count_go count_breaks]; [lia|].
+  unfold is_newline_code. change newline_code with 138.
+  destruct (c =? 138); [|rewrite IH; lia].
+  destruct dh; cbn [andb]; [destruct was|]; rewrite IH; lia.
+Qed.
+Lemma text_of_clean_id t : clean t = true -> text_of_field t = t.
+Proof. intros H. rewrite <- (app_nil_r t) at 1. apply (text_of_clean t 0 H). Qed.
+
+(* rows needed by a field without unused-space bytes: line_count x row height = the specification's rows_occupied *)
+Lemma rows_agree tf : line_count tf (has_double_height_char tf) * (if has_double_height_char tf then 2 else 1) = rows_occupied tf.
+Proof.
+  unfold line_count, rows_occupied. rewrite line_count_breaks. change (double_height tf) with (has_double_height_char tf). lia.
+Qed.
+
+(* ---- region --------------------------------------------------------------------------------------------------- *)
+Definition rect_of (r : region) : rect := mkRect (r_x r) (r_y r) (r_w r) (r_h r) (r_after r).
+
+Definition rect_equiv (a b : rect) : Prop :=
+  (x0 a == x0 b /\ y0 a == y0 b /\ width a == width b /\ height a == height b)%Q /\ align_after a = align_after b.
+
+(* the region of a new subtitle is the specification's top-anchored region of row VP or bottom-anchored region of
+   the subtitle's last row; the anchor is chosen by VP < max_rows // 2 *)
+Lemma region_choice max_rows vp tf r : region_for max_rows vp tf (has_double_height_char tf) = Some r ->
+  (vp < max_rows / 2 /\ rect_equiv (rect_of r) (top_anchored max_rows vp)) \/
+  (max_rows / 2 <= vp /\ rect_equiv (rect_of r) (bottom_anchored max_rows (vp + rows_occupied tf - 1))).
+Proof.
+  unfold region_for. destruct (vp <? max_rows / 2) eqn:E.
+  - intros H. injection H as <-. left. split; [lia|]. unfold rect_equiv, rect_of, top_anchored, row_top.
+    cbn [r_x r_y r_w r_h r_after x0 y0 width height align_after]. repeat split; try reflexivity;
+    unfold qz, safe_top, safe_height; change default_vertical_safe_margin_pct with 10; change safe_area_height with 80;
+    change (inject_Z (100 - 10)) with 90%Q; change (inject_Z 10) with 10%Q; change (inject_Z 80) with 80%Q; ring.
+  - destruct (max_rows =? 0); [discriminate|]. intros H. injection H as <-. right. split; [lia|].
+    rewrite <- rows_agree. unfold rect_equiv, rect_of, bottom_anchored, row_bottom.
+    cbn [r_x r_y r_w r_h r_after x0 y0 width height align_after]. repeat split; try reflexivity;
+    unfold qz, safe_top, safe_height; change safe_area_height with 80; change (inject_Z 80) with 80%Q; ring.
+Qed.
+
+(* both regions lie inside the safe area when the subtitle's rows lie inside the row grid *)
+Lemma ratio_bounds a b : 0 <= a <= b -> 0 < b -> (0 <= inject_Z a / inject_Z b /\ inject_Z a / inject_Z b <= 1)%Q.
+Proof.
+  intros Ha Hb. destruct b as [|p|p]; try lia.
+  unfold Qdiv, Qinv, Qmult, Qle, inject_Z. cbn [Qnum Qden]. split; lia.
+Qed.
+
+Lemma top_inside rows vp : 0 < rows -> 1 <= vp <= rows + 1 -> inside_safe_area (top_anchored rows vp).
+Proof.
+  intros Hr Hv. destruct (ratio_bounds (vp - 1) rows ltac:(lia) Hr) as [H0 H1].
+  unfold inside_safe_area, top_anchored, row_top, safe_left, safe_top, safe_width, safe_height.
+  cbn [x0 y0 width height]. set (q := (inject_Z (vp - 1) / inject_Z rows)%Q) in *.
+  repeat split.
+  - apply Qle_refl.
+  - apply Qle_refl.
+  - setoid_replace (10 + q * 80)%Q with (10 + 80 * q)%Q by ring.
+    rewrite <- (Qplus_0_r 10) at 1. apply Qplus_le_r. apply Qmult_le_0_compat; [discriminate | exact H0].
+  - setoid_replace (10 + q * 80 + (10 + 80 - (10 + q * 80)))%Q with (10 + 80)%Q by ring. apply Qle_refl.
+  - setoid_replace (10 + 80 - (10 + q * 80))%Q with (80 * (1 - q))%Q by ring.
+    apply Qmult_le_0_compat; [discriminate|]. rewrite <- (Qplus_opp_r q). apply Qplus_le_l. exact H1.
+Qed.
+
+Lemma bottom_inside rows last : 0 < rows -> 0 <= last <= rows -> inside_safe_area (bottom_anchored rows last).
+Proof.
+  intros Hr Hv. destruct (ratio_bounds last rows ltac:(lia) Hr) as [H0 H1].
+  unfold inside_safe_area, bottom_anchored, row_bottom, safe_left, safe_top, safe_width, safe_height.
+  cbn [x0 y0 width height]. set (q := (inject_Z last / inject_Z rows)%Q) in *.
+  repeat split.
+  - apply Qle_refl.
+  - apply Qle_refl.
+  - apply Qle_refl.
+  - setoid_replace (10 + (10 + q * 80 - 10))%Q with (10 + 80 * q)%Q by ring.
+    apply Qplus_le_r. rewrite <- (Qmult_1_r 80) at 2. apply Qmult_le_l; [reflexivity | exact H1].
+  - setoid_replace (10 + q * 80 - 10)%Q with (80 * q)%Q by ring. apply Qmult_le_0_compat; [discriminate | exact H0].
+Qed.
+
+(* VP = 0 (a legal value for open subtitles) in the upper half: the region starts above the safe area *)
+Lemma region_vp_zero_refuted : exists rows tf r, region_for rows 0 tf false = Some r /\ ~ inside_safe_area (rect_of r).
+Proof.
+  exists 23, [65], (mkRegion (qz 5) (qz 10 + (qz (-1) / qz 23) * qz 80)%Q (qz 90) (qz 90 - (qz 10 + (qz (-1) / qz 23) * qz 80))%Q false).
+  split; [reflexivity|]. unfold inside_safe_area. intros (_ & _ & H & _). vm_compute in H. apply H. reflexivity.
+Qed.
+
+(* ---- subtitle numbers: `is not` (object identity) against `!=` ------------------------------------------------ *)
+Definition sn_pred : state -> tti -> list Z -> bool -> bool :=
+  fun s t _ live => live && ((t_cs t =? 0) || (t_cs t =? 1)) && (256 <? t_sn t) &&
+                    match st_last_sn s with Some l => l =? t_sn t | None => false end.
+
+Lemma process_same f s t :
+  (text_block t && let '(tf, live) := block_view f s t in sn_pred s t tf live) = false ->
+  process_tti true f s t = process_tti false f s t.
+Proof.
+  unfold process_tti, block_view, text_block, sn_pred.
+  destruct ((239 <? t_ebn t) && (t_ebn t <? 255)) eqn:E1; [reflexivity|]. cbn [negb andb].
+  destruct (t_ebn t =? 255) eqn:E2; [|reflexivity]. cbn [negb andb].
+  destruct (q_neg (offset_q (f_fps f) (t_tci t) - f_start f)) eqn:E3; [reflexivity|].
+  destruct (q_lt (offset_q (f_fps f) (t_tco t) - f_start f) (offset_q (f_fps f) (t_tci t) - f_start f)) eqn:E4; [reflexivity|].
+  cbn [negb andb]. intros H.
+  assert (Heq : sn_is_not true (t_sn t) (st_last_sn s) && ((t_cs t =? 0) || (t_cs t =? 1)) =
+                sn_is_not false (t_sn t) (st_last_sn s) && ((t_cs t =? 0) || (t_cs t =? 1))).
+  { unfold sn_is_not. destruct (st_last_sn s) as [l|]; [|reflexivity].
+    destruct ((t_cs t =? 0) || (t_cs t =? 1)); [|rewrite !andb_false_r; reflexivity].
+    cbn [andb] in H. rewrite !andb_true_r.
+    destruct (256 <? t_sn t); [|reflexivity]. cbn [andb orb] in *.
+    rewrite Z.eqb_sym in H. rewrite H. reflexivity. }
+  rewrite Heq. reflexivity.
+Qed.
+
+Lemma read_same : forall fuel f s bs, scan fuel sn_pred f s bs = false ->
+  read_blocks fuel true f s bs = read_blocks fuel false f s bs.
+Proof.
+  induction fuel as [|k IH]; intros f s bs H; [reflexivity|].
+  cbn [scan read_blocks] in *. destruct bs as [|b0 bs0]; [reflexivity|].
+  set (bs := b0 :: bs0) in *.
+  destruct (negb (Nat.eqb (length (firstn 128 bs)) 128)); [reflexivity|].
+  apply orb_false_iff in H as [Hp Hn].
+  rewrite <- (process_same f s _ Hp).
+  destruct (process_tti true f s (unpack_tti (firstn 128 bs))) as [s'|e]; [|reflexivity].
+  destruct (f_tti_count f =? 0); [reflexivity|]. apply IH, Hn.
+Qed.
+
+(* outside the trigger the reader behaves as if subtitle numbers were compared by value *)
+Lemma sn_value_partial file cfg : trigger_sn_identity file cfg = false -> reader_gen true file cfg = reader_gen false file cfg.
+Proof.
+  unfold trigger_sn_identity, scan_file, reader_gen, gsi_of.
+  destruct (negb (Nat.eqb (length (firstn 1024 file)) 1024)); [reflexivity|].
+  destruct (init (unpack_gsi (firstn 1024 file)) cfg) as [f|e]; [|reflexivity].
+  intros H. change (fun (s : state) (t : tti) (_ : list Z) (live : bool) =>
+                      live && ((t_cs t =? 0) || (t_cs t =? 1)) && (256 <? t_sn t) &&
+                      match st_last_sn s with Some l => l =? t_sn t | None => false end) with sn_pred in H.
+  rewrite (read_same _ _ _ _ H). reflexivity.
+Qed.
+
+(* witness: two terminal blocks with the same subtitle number 300 (a new paragraph each) against 5 (one paragraph) *)
+Definition put (off : nat) (v : list Z) (l : list Z) : list Z := firstn off l ++ v ++ skipn (off + length v) l.
+Definition witness_gsi : list Z :=
+  put 3 [83; 84; 76; 50; 53; 46; 48; 49] (put 11 [49; 48; 48; 48; 57] (put 238 [48; 48; 48; 48; 50] (put 253 [50; 51] (repeat 32 1024%nat)))).
+Definition witness_tti (sn : Z) (s0 s1 vp cs cf : Z) (tf : list Z) : list Z :=
+  [0; sn mod 256; sn / 256; 255; cs; 0; 0; s0; 0; 0; 0; s1; 0; vp; 2; cf] ++ firstn 112 (tf ++ repeat 143 112%nat).
+Definition cfg0 : config := mkConfig StNone MrNone false false None.
+Definition paragraphs_of (o : outcome) : Z :=
+  match o with Ok d => Z.of_nat (length (concat (d_divs d))) | Err _ => -1 end.
+
+Lemma sn_identity_refuted : exists sn file,
+  reader_model file cfg0 <> reader_gen false file cfg0 /\
+  (* the same file with a small subtitle number is read differently by the faithful model *)
+  paragraphs_of (reader_model file cfg0) = 2 /\
+  paragraphs_of (reader_model (witness_gsi ++ witness_tti (sn - 295) 1 2 20 0 0 [65] ++ witness_tti (sn - 295) 3 4 20 0 0 [66]) cfg0) = 1.
+Proof.
+  exists 300, (witness_gsi ++ witness_tti 300 1 2 20 0 0 [65] ++ witness_tti 300 3 4 20 0 0 [66]).
+  split; [|split]; vm_compute; [discriminate | reflexivity | reflexivity].
+Qed.
